@@ -8,6 +8,8 @@
 #include <poll.h>
 #include <signal.h>
 #include <sys/epoll.h>
+#include <netinet/in.h>
+#include <arpa/inet.h>
 #include <sys/socket.h>
 #include <sys/timerfd.h>
 #include <sys/wait.h>
@@ -61,9 +63,9 @@ __wrap_timerfd_settime(int fd, int flags, const struct itimerspec *n, struct iti
 #define ID_P	3	/* child process (TP_EV_PROC); only the proc_history enumeration uses it */
 #define NID	4
 
-enum { S_ADD = 1, S_ENABLE1, S_ENABLEF, S_DISABLE, S_DEL, S_READY, S_DRAIN, S_PEERCLOSE, S_FIRE, S_SETACT, S_PEXIT, S_PEERSHUT };
+enum { S_ADD = 1, S_ENABLE1, S_ENABLEF, S_DISABLE, S_DEL, S_READY, S_DRAIN, S_PEERCLOSE, S_FIRE, S_SETACT, S_PEXIT, S_PEERSHUT, S_UDPERR };
 enum { ACT_NONE = 0, ACT_DISABLE_SELF, ACT_DEL_SELF, ACT_ENABLE_OTHER, ACT_DRAIN_SELF, ACT_DEL_OTHERS, ACT_DISABLE_OTHERS, ACT_LAST = ACT_DISABLE_OTHERS };
-static const char *stepname[] = { "?", "add", "enable1", "enableF", "disable", "del", "ready", "drain", "peerclose", "fire", "setact", "child-exits", "peer-half-close" };
+static const char *stepname[] = { "?", "add", "enable1", "enableF", "disable", "del", "ready", "drain", "peerclose", "fire", "setact", "child-exits", "peer-half-close", "icmp-error-arrives" };
 static const char *actname[] = { "none", "disable-self", "del-self", "enable-other", "drain-self", "del-others", "disable-others" };
 static const char *idname[] = { "A(pipe)", "B(sock)", "T(timer)", "P(process)" };
 
@@ -76,7 +78,7 @@ typedef struct reg_s {
 	tp_udata_t ud;
 	int	fd, peer;	/* fd registered; peer = other end (or -1 when closed) */
 	/* model */
-	int	m_reg, m_en, m_event, m_flags, m_ready, m_peer_closed, m_abst;
+	int	m_reg, m_en, m_event, m_flags, m_ready, m_peer_closed, m_abst, m_err;
 	int	act;
 	int	cb_total, cb_window;
 } reg_t;
@@ -88,6 +90,9 @@ static int last_n = 1;	/* events returned by the last epoll_wait */
 static int window_need[NID];	/* member of the fireable set during the whole current settle window */
 static int grid_mode = 0;	/* timer/validation grids: callbacks are not checked */
 static int hist_failed;
+static uint32_t last_mask[NID];	/* what epoll reported for the registration in the batch the loop is working on */
+static int udp_mode = 0;	/* error histories: slot B is a connected UDP socket with IP_RECVERR (a queued ICMP error keeps EPOLLERR up) */
+static unsigned long udp_no_icmp = 0;
 static pid_t child_pid = -1;
 static int child_pipe = -1, child_alive = 0;
 #define CHILD_EXIT_CODE 7
@@ -122,7 +127,7 @@ fireable(int id) {
 		return (0);
 	if (TP_EV_WRITE == r->m_event)
 		return (1);	/* a socket with an empty send queue is always writable; after peer close: HUP/ERR, also reported */
-	return (r->m_ready || r->m_peer_closed);
+	return (r->m_ready || r->m_peer_closed || r->m_err);
 }
 
 static void do_drain(int id);
@@ -151,6 +156,11 @@ user_cb(tp_event_p ev, tp_udata_p ud) {
 		hfail("wrong-event-kind", "%s fired as event %d, registered as %d", idname[id], ev->event, r->m_event);
 	if (ud->tpt != t0)
 		hfail("wrong-thread", "%s callback carries another thread", idname[id]);
+	if (TP_EV_READ == r->m_event || TP_EV_WRITE == r->m_event) {	/* "error conditions carry the corresponding flags" */
+		int kerr = (0 != (last_mask[id] & EPOLLERR)), ferr = (0 != (ev->flags & TP_F_ERROR));
+		if (kerr != ferr)
+			hfail("error-flag", "%s: epoll reported events %#x for it, the callback got TP_F_ERROR=%d (fflags %u)", idname[id], last_mask[id], ferr, ev->fflags);
+	}
 	if (TP_EV_READ == r->m_event && r->m_reg) {
 		int eof = (0 != (ev->flags & TP_F_EOF));
 		if (eof != r->m_peer_closed)
@@ -368,6 +378,16 @@ apply_step(const step_t *s) {
 	case S_SETACT:
 		r->act = s->a;
 		break;
+	case S_UDPERR: /* a datagram to a port nobody listens on: the ICMP answer is queued on the socket (IP_RECVERR) */
+		if (!udp_mode || r->fd < 0)
+			break;
+		(void)!send(r->fd, "x", 1, 0);
+		pfd.fd = r->fd; pfd.events = 0; pfd.revents = 0;
+		if (1 == poll(&pfd, 1, 1000) && 0 != (pfd.revents & POLLERR))
+			r->m_err = 1;
+		else
+			udp_no_icmp ++;	/* the environment did not produce the error: nothing is expected, nothing is judged */
+		break;
 	case S_PEXIT: /* the child process exits now */
 		if (child_alive) {
 			siginfo_t si;
@@ -401,6 +421,13 @@ begin_window(void) {
 	}
 }
 
+static void
+note_masks(const struct epoll_event *ev, int n) {
+	int i, id;
+	for (i = 0; i < n; i ++) for (id = 0; id < NID; id ++)
+		if (ev[i].data.ptr == (void *)&R[id].ud) last_mask[id] = ev[i].events;
+}
+
 int
 __wrap_epoll_wait(int epfd, struct epoll_event *ev, int maxev, int timeout) {
 	int n;
@@ -415,6 +442,7 @@ __wrap_epoll_wait(int epfd, struct epoll_event *ev, int maxev, int timeout) {
 	for (;;) {
 		if (settle_left > 0) {
 			n = __real_epoll_wait(epfd, ev, maxev, 0);	/* as many as the loop asks for: a loop that fetches batches gets batches */
+			note_masks(ev, n);
 			if (n > 0) {
 				settle_left = (settle_left > n) ? settle_left - n : 0;
 				in_iteration = 1;
@@ -430,6 +458,7 @@ __wrap_epoll_wait(int epfd, struct epoll_event *ev, int maxev, int timeout) {
 		if (shutdown_sent) {
 			/* the shutdown message is in the queue: the loop must get it */
 			n = __real_epoll_wait(epfd, ev, maxev, 1000);
+			note_masks(ev, n);
 			if (n > 0) { in_iteration = 1; iter_cb = 0; last_n = n; return (n); }
 			hfail("harness", "shutdown message never became ready");
 			return (n);
@@ -443,6 +472,19 @@ __wrap_epoll_wait(int epfd, struct epoll_event *ev, int maxev, int timeout) {
 		cur_step ++;
 		begin_window();
 	}
+}
+
+/* a UDP socket connected to a loop-back port nobody is bound to (9, "discard": below the ephemeral range, so no other
+ * process of the run can take it), with IP_RECVERR: the ICMP port-unreachable answer is queued and EPOLLERR stays up */
+static int
+udp_dead_socket(void) {
+	struct sockaddr_in a; int u, one = 1;
+	u = socket(AF_INET, SOCK_DGRAM | SOCK_NONBLOCK, 0);
+	if (u < 0) return (-1);
+	setsockopt(u, IPPROTO_IP, IP_RECVERR, &one, sizeof(one));
+	memset(&a, 0, sizeof(a)); a.sin_family = AF_INET; a.sin_port = htons(9); a.sin_addr.s_addr = htonl(INADDR_LOOPBACK);
+	if (0 != connect(u, (struct sockaddr *)&a, sizeof(a))) { close(u); return (-1); }
+	return (u);
 }
 
 static void
@@ -460,7 +502,12 @@ run_history(void) {
 	tp = NULL;
 	if (0 != tp_create(&s, &tp)) { vh_fail("harness", "tp_create"); return; }
 	t0 = tp_thread_get(tp, 0);
-	if (0 != pipe2(p, O_NONBLOCK) || 0 != socketpair(AF_UNIX, SOCK_STREAM | SOCK_NONBLOCK, 0, sp)) { vh_fail("harness", "fds"); return; }
+	memset(last_mask, 0, sizeof(last_mask));
+	if (0 != pipe2(p, O_NONBLOCK)) { vh_fail("harness", "fds"); return; }
+	if (udp_mode) {
+		sp[0] = udp_dead_socket(); sp[1] = -1;
+		if (sp[0] < 0) { vh_fail("harness", "udp socket"); return; }
+	} else if (0 != socketpair(AF_UNIX, SOCK_STREAM | SOCK_NONBLOCK, 0, sp)) { vh_fail("harness", "fds"); return; }
 	R[ID_A].fd = p[0]; R[ID_A].peer = p[1]; R[ID_A].ud.ident = (uintptr_t)p[0];
 	R[ID_B].fd = sp[0]; R[ID_B].peer = sp[1]; R[ID_B].ud.ident = (uintptr_t)sp[0];
 	R[ID_T].fd = -1; R[ID_T].peer = -1; R[ID_T].ud.ident = 1;
@@ -748,6 +795,51 @@ enumerate_timer(int depth, int reg) {
 	PUSH(S_SETACT, ID_T, ACT_DEL_SELF, 0); enumerate_timer(depth + 1, 1);
 }
 
+/* histories of a read registration on a socket whose error stays pending (queued ICMP error): add (three flag sets, also
+ * again), enable both ways, disable, delete, the error arrives, two callback actions */
+static void
+enumerate_err(int depth, int reg, int err) {
+	static const int flagset[3] = { 0, TP_F_ONESHOT, TP_F_DISPATCH };
+	int f, total;
+
+	if (depth > 0) {
+		nsteps = depth;
+		if (vh_begin("error_history")) {
+			vh_set_describer(hist_desc);
+			udp_mode = 1;
+			run_history();
+			udp_mode = 0;
+			total = R[ID_B].cb_total;
+			if (total > 0 && !hist_failed)
+				vh_nontrivial();
+			vh_outcome(&total, sizeof(total));
+		}
+	}
+	if (depth == max_depth)
+		return;
+	for (f = 0; f < 3; f ++) { PUSH(S_ADD, ID_B, TP_EV_READ, flagset[f]); enumerate_err(depth + 1, 1, err); }
+	if (!err) { PUSH(S_UDPERR, ID_B, 0, 0); enumerate_err(depth + 1, reg, 1); }
+	if (!reg)
+		return;
+	PUSH(S_ENABLEF, ID_B, 0, 0); enumerate_err(depth + 1, 1, err);
+	PUSH(S_ENABLE1, ID_B, 0, 0); enumerate_err(depth + 1, 1, err);
+	PUSH(S_DISABLE, ID_B, 0, 0); enumerate_err(depth + 1, 1, err);
+	PUSH(S_DEL, ID_B, 0, 0); enumerate_err(depth + 1, 0, err);
+	PUSH(S_SETACT, ID_B, ACT_DISABLE_SELF, 0); enumerate_err(depth + 1, 1, err);
+	PUSH(S_SETACT, ID_B, ACT_DEL_SELF, 0); enumerate_err(depth + 1, 1, err);
+}
+
+static int
+udp_icmp_available(void) {
+	struct pollfd pfd; int u = udp_dead_socket(), ok;
+	if (u < 0) return (0);
+	(void)!send(u, "x", 1, 0);
+	pfd.fd = u; pfd.events = 0; pfd.revents = 0;
+	ok = (1 == poll(&pfd, 1, 2000) && 0 != (pfd.revents & POLLERR));
+	close(u);
+	return (ok);
+}
+
 int
 main(int argc, char **argv) {
 	abs_t a;
@@ -765,5 +857,10 @@ main(int argc, char **argv) {
 	enumerate(0, a);
 	enumerate_proc(0, 0, 0, 0, 0);
 	enumerate_timer(0, 0);
+	if (udp_icmp_available())
+		enumerate_err(0, 0, 0);
+	else
+		printf("NOTE\tno ICMP port-unreachable on loop-back in this environment: error_history not run\n");
+	printf("NOTE\terror_history steps without ICMP answer=%lu\n", udp_no_icmp);
 	return (vh_finish());
 }
